@@ -12,4 +12,13 @@ CHECKS = {
              "HashSet order observed, not modelled; Kahn's internal order unobservable (ok/err + validity compared).",
         technique="Lean 4 theorems (induction with DFS stack invariant; Kahn pending-edge invariant) + differential correspondence",
     ),
+    "C05": dict(
+        text="Unbounded proof, for every supported type expression at any depth, that flatten-to-string -> parse_type_structure -> visit_type "
+             "equals the canonical print of the README denotation outside two decidable exclusion classes (first-comma splitting, Option directly "
+             "under an array); the excluded classes are shown false by kernel-evaluated witnesses and replayed on the real code as known findings. "
+             "Tied to the code by exact equality of (type string, TypeStructure, rendered text) at all five translation sites, exhaustively to depth 2/3.",
+        design_ref="DESIGN.md section 7.C05, Appendix E",
+        note="Trusted: Lean kernel; model L.parseTS / V.visitTs / V.addPrefix validated per case; spec T.denote/T.printSpec; recogniser T.parseTsTy; syn.",
+        technique="Lean 4 theorems (L1 string round trip by mutual structural induction, L2 printer equality) + differential correspondence",
+    ),
 }
